@@ -273,6 +273,8 @@ func (p *RecProvider) Release(a core.Ammo) {
 type RecAggregator struct {
 	core.Aggregator
 	Log *Log
+	// Recycle: handled netsample samples go back to the sample pool (the wrapped aggregator must not keep them)
+	Recycle bool
 }
 
 func (a *RecAggregator) Run(ctx context.Context, deps core.AggregatorDeps) error {
@@ -299,6 +301,12 @@ func (a *RecAggregator) Report(s core.Sample) {
 	}
 	a.Log.Add(e)
 	a.Aggregator.Report(s)
+	if a.Recycle {
+		if ns, ok := s.(*netsample.Sample); ok {
+			// what the phout aggregator does with a handled sample: back to the pool, for the next gun to take
+			netsample.VerifRelease(ns)
+		}
+	}
 }
 
 // sampleNet extracts the net code through the exported String()/fields we have access to.
